@@ -2,6 +2,14 @@
   C02 — bridge theorems to the kernels translated from the source (Torf/Generated/Kernels.lean is
   regenerated from /repo on every run): the model's "which files does a content error name" test
   is exactly the source's three-way comparison with the source's `err_i_beg` / `err_i_end`.
+
+  Loop kernel (second half): the whole body of `VerifyContentError.__init__` up to the store
+  `self._files = tuple(corrupt_files)` is translated statement by statement (`corruptFilesFn`:
+  the `len(file_sizes)` cases, `err_i_beg` / `err_i_end`, `cur_pos = 0`, the loop over the
+  `(filepath, filesize)` pairs with the test, the `append` and `cur_pos += filesize`; the message
+  string is not translated, only the bounds check of its `corrupt_files[0]`).
+  `C02_kernel_loop_corrupt_files`: it computes the model's `corruptFiles` for every list of sizes,
+  every piece index and every piece size (an empty list: RuntimeError).
 -/
 import Torf.Generated.Kernels
 import Torf.Spec.Verify
@@ -22,5 +30,137 @@ theorem C02_kernel_corrupt_files (L : Nat) (sizes : List Nat) (i k : Nat) (hlen 
     exact ⟨hk, by omega⟩
   · rintro ⟨hk, h⟩
     exact ⟨hk, by omega⟩
+
+/-! ### Loop kernel: `VerifyContentError.__init__` as a whole -/
+
+open Torf.Loop
+
+/-- the three-way test on integers, for a file of size `s` starting at `fb` -/
+private def hit (eb ee fb : Int) (s : Nat) : Bool :=
+  (decide (fb ≤ eb) && decide (eb < fb + (s : Int))) || (decide (fb < ee) && decide (ee ≤ fb + (s : Int))) ||
+    (decide (fb ≥ eb) && decide (fb + (s : Int) < ee))
+
+/-- the loop of the source in the model's vocabulary: files `idx, idx+1, …` of sizes `rest`, the
+    first one starting at `p` -/
+private def corruptLoop (eb ee : Int) : List Nat → Nat → Int → List Nat
+  | [], _, _ => []
+  | s :: rest, idx, p => (if hit eb ee p s then [idx] else []) ++ corruptLoop eb ee rest (idx + 1) (p + (s : Int))
+
+private theorem hit_iff (eb ee fb : Int) (s : Nat) :
+    hit eb ee fb s = true ↔
+      ((fb ≤ eb ∧ eb < fb + (s : Int)) ∨ (fb < ee ∧ ee ≤ fb + (s : Int))) ∨ (fb ≥ eb ∧ fb + (s : Int) < ee) := by
+  simp only [hit, Bool.or_eq_true, Bool.and_eq_true, decide_eq_true_eq]
+
+private theorem bnot_eq_true (b : Bool) : ((!b) = true) ↔ ¬ (b = true) := by cases b <;> simp
+
+private theorem isSome_getIdx_zero {α : Type} (xs : List α) :
+    (getIdx xs (0 : Int)).isSome = decide (0 < xs.length) := by
+  cases xs <;> simp [getIdx]
+
+local macro "loop_arith" : tactic =>
+  `(tactic| (try simp only [Bool.or_eq_true, Bool.and_eq_true, bnot_eq_true, decide_eq_true_eq, isSome_getIdx_zero,
+               List.length_map, Bool.true_eq_false, Bool.false_eq_true, not_true_eq_false, not_false_eq_true] at *
+             omega))
+
+/-- model side: the loop started behind the files `pre` collects the indexes the model's filter keeps -/
+private theorem corruptLoop_eq (eb ee : Int) :
+    ∀ (rest pre : List Nat),
+      corruptLoop eb ee rest pre.length ((pre.sum : Nat) : Int) =
+        (List.range' pre.length rest.length).filter
+          (fun k => hit eb ee (pos (pre ++ rest) k) (sizeOf (pre ++ rest) k))
+  | [], pre => by simp [corruptLoop]
+  | s :: rest, pre => by
+    have ih := corruptLoop_eq eb ee rest (pre ++ [s])
+    have hp : pos (pre ++ s :: rest) pre.length = pre.sum := by simp [Torf.Missing.pos]
+    have hs : sizeOf (pre ++ s :: rest) pre.length = s := by simp [Torf.Missing.sizeOf]
+    simp only [List.length_append, List.length_cons, List.length_nil, List.sum_append, List.sum_cons, List.sum_nil,
+      List.append_assoc, List.cons_append, List.nil_append, Nat.zero_add, Nat.add_zero] at ih
+    simp only [corruptLoop, List.length_cons, List.range'_succ, List.filter_cons, hp, hs]
+    have e : ((pre.sum : Nat) : Int) + (s : Int) = ((pre.sum + s : Nat) : Int) := by omega
+    rw [e, ih]
+    split <;> simp
+
+/-- loop invariant: started at pair `idx` with running position `cur` and the files `acc`
+    collected so far, the source's loop stores `acc` followed by what `corruptLoop` collects -/
+private theorem corruptFiles_inv (pi ps eb ee : Int) :
+    ∀ (rest : List Nat) (idx : Nat) (cur cur' : Int) (acc : List Nat), cur = cur' →
+      corruptFilesFn.loop pi ps eb ee (rest.map Int.ofNat) idx acc cur =
+        .ret (acc ++ corruptLoop eb ee rest idx cur')
+  | [], idx, cur, cur', acc, h => by
+    simp only [List.map_nil, corruptFilesFn.loop, corruptLoop, List.append_nil]
+    repeat' split
+    all_goals first
+      | rfl
+      | loop_arith
+  | s :: rest, idx, cur, cur', acc, h => by
+    subst h
+    simp only [List.map_cons, corruptFilesFn.loop, corruptLoop, Int.ofNat_eq_natCast]
+    have hm := hit_iff eb ee cur s
+    by_cases hh : hit eb ee cur s = true
+    · rw [if_pos hh]
+      have hm' := hm.mp hh
+      clear hm hh
+      repeat' split
+      all_goals first
+        | loop_arith
+        | (rw [corruptFiles_inv pi ps eb ee rest _ _ (cur + (s : Int)) _ (by omega)]
+           simp)
+    · rw [if_neg hh]
+      have hm' := mt hm.mpr hh
+      clear hm hh
+      repeat' split
+      all_goals first
+        | loop_arith
+        | (rw [corruptFiles_inv pi ps eb ee rest _ _ (cur + (s : Int)) _ (by omega)]
+           simp)
+
+/-- `VerifyContentError.__init__` as written in the source computes the model's `corruptFiles`:
+    for every list of file sizes (zero-length files included), every piece index and every piece
+    size; an empty list of files is the RuntimeError of the source -/
+theorem C02_kernel_loop_corrupt_files (L : Nat) (sizes : List Nat) (i : Nat) :
+    corruptFilesFn (sizes.map Int.ofNat) i L =
+      if sizes = [] then .raised "RuntimeError" else .ret (corruptFiles L sizes i) := by
+  have hmodel : sizes.length ≠ 1 → corruptFiles L sizes i =
+      corruptLoop ((i : Int) * (L : Int)) ((i : Int) * (L : Int) + (L : Int)) sizes 0 0 := by
+    intro hlen
+    have h := corruptLoop_eq ((i : Int) * (L : Int)) ((i : Int) * (L : Int) + (L : Int)) sizes []
+    simp only [List.length_nil, List.sum_nil, List.nil_append] at h
+    rw [show ((0 : Nat) : Int) = 0 from rfl] at h
+    rw [h]
+    unfold corruptFiles
+    rw [if_neg hlen, List.range_eq_range']
+    apply List.filter_congr
+    intro k _
+    have e : ((i * L : Nat) : Int) = (i : Int) * (L : Int) := Int.natCast_mul i L
+    rw [Bool.eq_iff_iff, hit_iff]
+    simp only [Bool.or_eq_true, Bool.and_eq_true, decide_eq_true_eq]
+    omega
+  unfold corruptFilesFn
+  have hl : ((sizes.map Int.ofNat).length : Int) = (sizes.length : Int) := by simp
+  by_cases h0 : sizes = []
+  · subst h0
+    simp
+  · rw [if_neg h0]
+    have hpos : 0 < sizes.length := List.length_pos_iff.mpr h0
+    by_cases h1 : sizes.length = 1
+    · have : corruptFiles L sizes i = [0] := by unfold corruptFiles; rw [if_pos h1]
+      rw [this]
+      repeat' split
+      all_goals first
+        | rfl
+        | loop_arith
+    · rw [hmodel h1]
+      repeat' split
+      all_goals first
+        | loop_arith
+        | (rw [corruptFiles_inv _ _ _ _ sizes 0 _ 0 _ (by omega)]
+           simp only [List.nil_append]
+           try (congr 2 <;> first | omega | grind))
+
+/-- the translated function runs: sizes (3, 2, 4), piece size 2 -/
+example :
+    corruptFilesFn [3, 2, 4] 1 2 = .ret [0, 1] ∧ corruptFilesFn [3, 2, 4] 2 2 = .ret [1, 2] ∧
+    corruptFilesFn [7] 5 2 = .ret [0] ∧ corruptFilesFn [] 0 2 = .raised "RuntimeError" ∧
+    corruptFilesFn [3, 0, 4] 9 2 = .ret [] := by decide
 
 end Torf.C02
